@@ -557,6 +557,102 @@ def r04_8(rep: Report) -> None:
                  're-encoded short', fn)
 
 
+# ---------------------------------------------------------------- R04.9 expandable descriptor size
+DESCRIPTOR_SIZES = (0, 1, 0x7f, 0x80, 0x81, 200, 0x3fff, 0x4000, 0x12345, 0x1fffff, 0x200000, 0xfffffff)
+
+
+def r04_9(rep: Report) -> None:
+    """the size of an MPEG-4 descriptor is coded in 1..4 bytes of seven bits each.  The layout rule (R04.1) sees
+    a loop on either side and cannot say whether both agree on which group comes first.  Here both loops are
+    partially evaluated with the term evaluator (E13; constant propagation with decided `while` loops - no
+    repository code runs): the writer slice of Descriptor.encode (everything between the write of `tag` and the
+    last write of `size`) for a constant self.size, then Descriptor.parse_header over a reader model holding the
+    tag and exactly those bytes.  The size and header length read back must be the ones written, for sizes on
+    both sides of every group boundary."""
+    from ..termeval import Model, Opaque, TermEval
+    rid = 'R04.9'
+    tree = rep.repo.tree(MP4)
+    cls = need(find_class(tree, 'Descriptor'), 'Descriptor')
+    enc = need(find_func(cls, 'encode'), 'Descriptor.encode')
+    hdr = need(find_func(cls, 'parse_header'), 'Descriptor.parse_header')
+    construct = f'{MP4}::Descriptor.encode'
+
+    def is_write(st: ast.stmt, name: str) -> bool:
+        return any(isinstance(c, ast.Call) and isinstance(c.func, ast.Attribute) and c.func.attr == 'write'
+                   and len(c.args) >= 2 and isinstance(c.args[1], ast.Constant) and c.args[1].value == name
+                   for c in ast.walk(st))
+    body = enc.body
+    tag_at = [i for i, st in enumerate(body) if is_write(st, 'tag')]
+    size_at = [i for i, st in enumerate(body) if is_write(st, 'size')]
+    if len(tag_at) != 1 or not size_at or min(size_at) <= tag_at[0]:
+        raise AnalysisError('Descriptor.encode: the writes of `tag` and `size` were not found in this order')
+    piece = body[tag_at[0] + 1:max(size_at) + 1]
+    writers = {c.func.value.id for st in piece for c in ast.walk(st) if isinstance(c, ast.Call)
+               and isinstance(c.func, ast.Attribute) and c.func.attr == 'write' and isinstance(c.func.value, ast.Name)}
+
+    class Writer(Model):
+        def __init__(self) -> None:
+            self.out: list = []
+
+        def call(self, attr, args, kw):
+            if attr == 'write' and len(args) >= 2 and args[1] == 'size':
+                self.out.append((args[0], args[2] if len(args) > 2 else kw.get('value', Opaque('self.size'))))
+                return None
+            return NotImplemented
+
+    class Reader(Model):
+        def __init__(self, data: bytes) -> None:
+            self.data, self.pos = data, 0
+
+        def call(self, attr, args, kw):
+            if attr == 'read' and len(args) == 1 and isinstance(args[0], int):
+                got = self.data[self.pos:self.pos + args[0]]
+                self.pos += len(got)
+                return got
+            if attr == 'tell' and not args:
+                return self.pos
+            return NotImplemented
+
+    wrapper = ast.FunctionDef(name='size_bytes', args=ast.arguments(posonlyargs=[], args=[], kwonlyargs=[], kw_defaults=[],
+                                                                     defaults=[]), body=piece, decorator_list=[], lineno=1,
+                              col_offset=0)
+    params = [a.arg for a in hdr.args.args]
+    if not params:
+        raise AnalysisError('Descriptor.parse_header: no source parameter')
+    src_name = params[-1]
+    for n in DESCRIPTOR_SIZES:
+        key = f'size {n:#x}'
+        ev = TermEval.for_class(cls)
+        ev.consts = dict(ev.consts)
+        ev.consts['self.size'] = n
+        w = Writer()
+        paths = ev.run(wrapper, {name: w for name in writers})
+        vals = [v for _f, v in w.out]
+        if len(paths) != 1 or not all(isinstance(v, int) and not isinstance(v, bool) and 0 <= v <= 255
+                                                  for v in vals) or any(f != 'B' for f, _v in w.out):
+            raise AnalysisError(f'Descriptor.encode: the size bytes for size={n} were not obtained by evaluation '
+                                f'({len(paths)} path(s), values {vals[:6]!r})')
+        coded = bytes(vals)
+        ev2 = TermEval.for_class(cls)
+        r = Reader(bytes([0x04]) + coded + bytes(8))
+        env = {src_name: r}
+        if len(params) == 2:
+            env[params[0]] = Opaque(params[0])
+        got = [p_ for p_ in ev2.run(hdr, env) if p_.done == 'return']
+        res = got[0].result if len(got) == 1 else None
+        if not (isinstance(res, dict) and isinstance(res.get('size'), int) and isinstance(res.get('header_size'), int)):
+            raise AnalysisError(f'Descriptor.parse_header: the header of {coded.hex()} was not obtained by evaluation '
+                                f'({len(got)} returning path(s), result {res!r})')
+        if res['size'] == n and res['header_size'] == 1 + len(coded):
+            rep.ok(rid, construct, key, f'written {coded.hex()}, read back size {n}')
+        else:
+            rep.fail(rid, construct, key,
+                     f'a descriptor of {n} payload bytes is written with the size bytes `{coded.hex()}`, which '
+                     f'Descriptor.parse_header reads as size {res["size"]} (header of {res["header_size"]} bytes): writer '
+                     'and reader disagree on the coding of the size (order or number of the seven-bit groups), so an esds '
+                     'box that holds a descriptor of this size does not survive parse -> edit -> encode', body[max(size_at)])
+
+
 def analyse(rep: Report) -> None:
     rep.explanation = (
         'For every codec class of dashlive/mpeg/mp4.py the parse-side and encode-side bodies are '
@@ -573,6 +669,7 @@ def analyse(rep: Report) -> None:
     rep.rule('R04.6', 'FieldReader.read() result is never used as a value', floor=1)
     rep.rule('R04.7', 'a bit-level FieldWriter is flushed once, by the function that made it', floor=2)
     rep.rule('R04.8', 'the avcC extension block is read for every H.264 profile that carries one', floor=1)
+    rep.rule('R04.9', 'descriptor size bytes written by Descriptor.encode are read back as the same size', floor=12)
     idx = Index(rep.repo, 'dashlive')
     layout_rule(rep, idx, 'R04.1', [MP4], 44)
     r04_2(rep, idx)
@@ -581,6 +678,7 @@ def analyse(rep: Report) -> None:
     r04_6(rep)
     r04_7(rep, idx)
     r04_8(rep)
+    r04_9(rep)
     # registry: every @fourcc class has a pair or inherits one
     mod = idx.by_rel[MP4]
     reg = [c for c in mod.classes.values()
